@@ -79,7 +79,7 @@ class ExprInModel(ExprModel):
                     expr = ExprBinModel(expr, BinExprType.Or, t)
 
         if expr is None:
-            expr = ExprLiteralModel(1, False, 1)
+            expr = ExprLiteralModel(0, False, 1)
 
         from vsc.visitors.model_pretty_printer import ModelPrettyPrinter
         return expr.build(btor) if expr is not None else None
